@@ -26,7 +26,7 @@ CLASSES = {
 CAT_TIERS = {"quick": {"MaxBoxes": 4, "MaxWidth": 1, "states": 2000, "sim_num": 60, "sim_depth": 10, "sim_MaxBoxes": 7, "sim_MaxWidth": 1},
              "thorough": {"MaxBoxes": 6, "MaxWidth": 1, "states": 20000, "sim_num": 600, "sim_depth": 14, "sim_MaxBoxes": 9, "sim_MaxWidth": 1}}
 # the two-generator machine (split, state and their daggers) is explored deeper: ties, longer normalisations
-TIE_TIERS = {"quick": {"MaxBoxes": 5, "MaxWidth": 2, "states": 250, "sim_num": 40, "sim_depth": 8, "sim_MaxBoxes": 6, "sim_MaxWidth": 3,
+TIE_TIERS = {"quick": {"MaxBoxes": 5, "MaxWidth": 2, "states": 600, "sim_num": 40, "sim_depth": 8, "sim_MaxBoxes": 6, "sim_MaxWidth": 3,
                        "spiral_cups": 2, "spiral_walks": 2, "spiral_depth": 4},
              "thorough": {"MaxBoxes": 6, "MaxWidth": 3, "states": 1500, "sim_num": 300, "sim_depth": 12, "sim_MaxBoxes": 8, "sim_MaxWidth": 3,
                           "spiral_cups": 2, "spiral_walks": 2, "spiral_depth": 4}}
@@ -192,7 +192,17 @@ def run(prop, judge, tier, seed, t0, cls="monoidal", invariants=(), drift=False,
         n_states = len(states)
         rnd = core.rng(seed, prop)
         if len(states) > cfgt["states"]:
-            states = rnd.sample(states, cfgt["states"])
+            # stratified: every state with few boxes (whole strata while they fit in half the budget), the rest sampled
+            by_n = {}
+            for st in states:
+                by_n.setdefault(len(st["d"]["boxes"]), []).append(st)
+            keep, rest = [], []
+            for n in sorted(by_n):
+                if not rest and len(keep) + len(by_n[n]) <= cfgt["states"] // 2:
+                    keep += by_n[n]
+                else:
+                    rest += by_n[n]
+            states = keep + rnd.sample(rest, min(len(rest), cfgt["states"] - len(keep)))
         lap("model")
         chains, simres = simulate(cls, work, cfgt, seed)
         lap("simulate")
